@@ -68,9 +68,9 @@ CLAIMED['C01'] = dict(
 CLAIMED['C02'] = prog_claim('Here: eq/diseq/conde/fresh programs, every permutation of the constraint goals as its own template.', 'DESIGN.md §3 C02')
 CLAIMED['C03'] = prog_claim('Here additionally, on the real result objects: no program variable survives in an answer term or reported constraint, and the real '
                             'LResult::constraints()/is_constrained() return exactly the reported constraints with an operand among the reified variables of the answer term (nested lists / compounds included).', 'DESIGN.md §3 C03')
-CLAIMED['C05'] = prog_claim('Here: programs inside dfs { } (nested cond, conjunctions, member/append, the binary DFSDisj node, 16 / 400 generated dfs programs); the answer SEQUENCE must equal the depth-first reference order.', 'DESIGN.md §3 C05')
-CLAIMED['C06'] = prog_claim('Here: default interleaving search (hand-written templates, 24 / 400 generated programs, dfs programs as multisets, the binary Disj node); answer multisets must coincide; for loop/anyo prefixes every produced answer must be a reference answer.', 'DESIGN.md §3 C06')
-CLAIMED['C08'] = prog_claim('Here: conda / condu / onceo with heads that have 0, 1 or several answers (several: in deterministic dfs order), heads that fail or succeed only after lazy steps, and failing/succeeding rests; 8 / 300 generated programs.', 'DESIGN.md §3 C08')
+CLAIMED['C05'] = prog_claim('Here: programs inside dfs { } (nested cond, conjunctions, member/append, the binary DFSDisj node, 16 / 100 generated dfs programs); the answer SEQUENCE must equal the depth-first reference order.', 'DESIGN.md §3 C05')
+CLAIMED['C06'] = prog_claim('Here: default interleaving search (hand-written templates, 24 / 150 generated programs, dfs programs as multisets, the binary Disj node); answer multisets must coincide; for loop/anyo prefixes every produced answer must be a reference answer.', 'DESIGN.md §3 C06')
+CLAIMED['C08'] = prog_claim('Here: conda / condu / onceo with heads that have 0, 1 or several answers (several: in deterministic dfs order), heads that fail or succeed only after lazy steps, and failing/succeeding rests; 8 / 100 generated programs.', 'DESIGN.md §3 C08')
 CLAIMED['C10'] = prog_claim('Here: conde { A, B } under a shared constraint prefix versus the union of the reference answers of A and of B, including branches that share the domain store, the substitution, the constraint store, a term mutated through the list API, and goals that cache state; Rc sharing, raw-pointer writes and Box pointer copies are modelled, so an in-place update of shared state is seen.', 'DESIGN.md §3 C10')
 CLAIMED['C11'] = prog_claim('Here: project |x| { .. } with non-relational observer goals (number successor, Rust-level identity of two projected terms), aliased and completely unbound projected variables, reached by one or several states, with and without closure wrapper; panics are violations. One genuine defect is a recorded known finding.', 'DESIGN.md §3 C11')
 CLAIMED['C12'] = prog_claim('Here: `for x in &coll { body }` over Vec and LTerm-list collections of 0..7 elements (repeated elements, non-deterministic and multi-clause bodies) versus the explicit conjunction.', 'DESIGN.md §3 C12')
@@ -80,7 +80,7 @@ CLAIMED['C15'] = prog_claim('Here: the scoping templates (shadowing, same-named 
 CLAIMED['C04'] = prog_claim('Here: permutations of the goals of a conjunction / of the clauses of a disjunction (eq, chained and subsumed diseq, finite-domain constraints posted before and after bindings and domains, aliasing, sparse+interval domain merges, member, conde); identity, reverse and every rotation are always included (thorough: all permutations); each is its own template and must give exactly the reference answer multiset of the BASE order.', 'DESIGN.md §3 C04')
 CLAIMED['C07'] = prog_claim('Here (bounded form of fairness): disjunctions mixing finite goals with infinite producers (always, loop), silent divergers (never, recursive-closure divergers, diverging dfs blocks) and committed-choice operators whose first goal diverges or answers late; every answer of every productive branch must occur among the first N answers and within the step bound. A violation is replayed natively under a 30 s watchdog.', 'DESIGN.md §3 C07')
 CLAIMED['C09'] = prog_claim('Here: every template function calls next() twice more after the first None (fused); prefix templates take the first N answers of infinite streams, also inside dfs and next to diverging branches (lazy); determinism: each program is run up to five times on every path - hash-based stores iterated in insertion order, with a solver-chosen order of the first two iterations, and with EVERY iteration reversed (thorough: rotated, alternating, pairwise swapped) - and all answer sequences must coincide. An order dependence that needs another permutation is outside the bound (DESIGN.md section 6 describes one such residual observation).', 'DESIGN.md §3 C09')
-CLAIMED['C16'] = prog_claim('Here: CLP(FD) programs over small signed interval and sparse domains (ltefd, ltfd, plusfd, minusfd, timesfd, diseqfd, distinctfd; operand aliasing; symbolic constants; constraints before/after domains, unifications and bindings; domain transfer along binding chains; nested-list and compound query terms; hidden variables; 12 / 200 generated programs) through propagation and labeling versus brute-force enumeration of the domain product: no answer violates a constraint. Every template is also executed with every iteration of the hash-based stores reversed (thorough: rotated, swapped, alternating): soundness must not depend on the hash seed.', 'DESIGN.md §3 C16')
+CLAIMED['C16'] = prog_claim('Here: CLP(FD) programs over small signed interval and sparse domains (ltefd, ltfd, plusfd, minusfd, timesfd, diseqfd, distinctfd; operand aliasing; symbolic constants; constraints before/after domains, unifications and bindings; domain transfer along binding chains; nested-list and compound query terms; hidden variables; 12 / 60 generated programs) through propagation and labeling versus brute-force enumeration of the domain product: no answer violates a constraint. Every template is also executed with every iteration of the hash-based stores reversed (thorough: rotated, swapped, alternating): soundness must not depend on the hash seed.', 'DESIGN.md §3 C16')
 CLAIMED['C17'] = prog_claim('Same CLP(FD) templates as C16: multiset equality with the brute-force enumeration also shows that every solution (list-shaped query terms, hidden variables) is returned, and exactly once.', 'DESIGN.md §3 C17')
 CLAIMED['C20'] = prog_claim('Here: the crate\'s tuple compound (a, b) and #[compound] structs (tuple-like structs, a struct with an Option<Leaf> field, a recursive struct with typed fields, a named struct reached through match patterns, typed variables; the definitions are expanded by the real attribute macro on every run): field-wise unification, compound versus list / literal / compound of another type, Some versus None, occurs check through fields, disequality, deep walk* at reification, finite-domain labeling of fields, nesting; the reference treats a compound as a tagged constructor (the tagged-list reading). Named-struct constructor syntax does not parse inside == in this version of the macros, so named values arise from patterns only.', 'DESIGN.md §3 C20')
 CLAIMED['C21'] = dict(
